@@ -8,24 +8,20 @@ From QV Require Import Common.Prelude Engine.Model Engine.Core Engine.CoreSpec E
   Engine.MdlInvClean Engine.MdlRunBase Engine.MdlRun Engine.MdlRunAux Engine.MdlRunAll Engine.MdlCommit.
 Open Scope Z_scope.
 
-Lemma wf_model_g_facts : forall p, wf_model_g p ->
+Lemma wf_model_x_facts : forall p, wf_model_x p ->
   exists rk : node -> nat,
     (forall n e d, alookup p n = Some e -> In d (expr_reads e) -> (rk d < rk n)%nat) /\
     (forall n e d, alookup p n = Some e -> nkind n = KProjection -> In d (expr_reads e) -> is_fw_or_proj (nkind d) = true) /\
-    (forall n e d, alookup p n = Some e -> In d (expr_reads e) -> nkind d <> KExternal) /\
     (forall n e, alookup p n = Some e -> is_mexec_kind (nkind n) = true).
 Proof.
   intros p [Hkeys Htargets Hprj [rank Hrank]].
   exists (fun n => if is_mexec_kind (nkind n) then S (rank n) else O).
-  split; [|split; [|split]].
+  split; [|split].
   - intros n e d He Hd. apply alookup_In in He. rewrite (Hkeys n e He).
     destruct (Htargets n e d He Hd) as [Kd|[Kd _]].
-    + rewrite Kd. cbn. lia.
+    + destruct (nkind d); try discriminate; cbn; lia.
     + rewrite Kd. specialize (Hrank n e d He Hd Kd). lia.
   - intros n e d He K Hd. apply alookup_In in He. eapply Hprj; eauto.
-  - intros n e d He Hd. apply alookup_In in He. destruct (Htargets n e d He Hd) as [Kd|[Kd _]].
-    + rewrite Kd. discriminate.
-    + intro K. rewrite K in Kd. discriminate.
   - intros n e He. apply alookup_In in He. apply (Hkeys n e He).
 Qed.
 
@@ -44,6 +40,35 @@ Proof.
   match goal with |- context [fold_left ?F sets ?A] => destruct (fold_left F sets A) as [[s1 rs] batch] end.
   reflexivity.
 Qed.
+Lemma step_f_session_gen : forall fuel pfuel p s sets refresh,
+  step_f fuel pfuel p s (OSession sets refresh) =
+  let s := set_log s [] in
+  let s0 := set_ts s (s_ts s + 1)%N in
+  let '(s1, rs, batch) := fold_left fsess_step sets (s0, [], []) in
+  let '(s2, batch2) := if refresh then fold_left refresh_step (s_ext s1) (s1, batch) else (s1, batch) in
+  let s3 := set_visited (set_stat s2 0%N) [] in
+  match propagate pfuel s3 batch2 with
+  | Ok s4 => (s4, mkRes (RSession rs) (rev (s_log s4)) None)
+  | _ => (s3, mkRes RFuel [] None)
+  end.
+Proof.
+  intros. unfold step_f, fsess_step, refresh_step. cbv zeta.
+  match goal with |- context [fold_left ?F sets ?A] => destruct (fold_left F sets A) as [[s1 rs] batch] end.
+  destruct refresh; reflexivity.
+Qed.
+
+(** the environment after an operation *)
+Definition env_step (env : menv) (s : state) (o : op) (s' : state) : menv :=
+  match o with
+  | OSession sets refresh =>
+      (fold_left (fun a '(i, v) => input_set a i v) sets (fst env),
+       if refresh then xref (set_log s []) (s_ext s) (snd env) else snd env)
+  | OSetWorld i v =>
+      (fst env, fun k => match get_info s (ext_node k) with Some _ => snd env k | None => Some (world_get s' k) end)
+  | _ => env
+  end.
+Lemma env_step_inputs : forall env s o s', fst (env_step env s o s') = apply_op (fst env) o.
+Proof. intros env s o s'. destruct o; reflexivity. Qed.
 
 Section Steps.
 Variable p : program.
@@ -51,112 +76,77 @@ Variable rk : node -> nat.
 Hypothesis Hrk : forall n e d, alookup p n = Some e -> In d (expr_reads e) -> (rk d < rk n)%nat.
 Hypothesis Hproj : forall n e d, alookup p n = Some e -> nkind n = KProjection -> In d (expr_reads e) ->
   is_fw_or_proj (nkind d) = true.
-Hypothesis Htgt : forall n e d, alookup p n = Some e -> In d (expr_reads e) -> nkind d <> KExternal.
 Hypothesis Hkeys : forall n e, alookup p n = Some e -> is_mexec_kind (nkind n) = true.
 
-(** the invariant between operations: relative to some operation start *)
-Definition BInv (inp : inputs) (s : state) : Prop := exists sA, MInv p rk sA [] inp s.
+(** the invariant between operations: every operation starts by emptying the log *)
+Definition BInv (env : menv) (s : state) : Prop := MInv p rk (set_log s []) [] env (set_log s []).
 
-Lemma BInv_start : forall inp s, BInv inp s -> MInv p rk (set_log s []) [] inp (set_log s []).
-Proof. intros inp s [sA HI]. eapply MInv_rebase; [| | | | | |exact HI]; try reflexivity. left. reflexivity. Qed.
-
-Lemma root_query : forall fuel inp s n o fr ms s1,
-  BInv inp s -> nkind n <> KExternal ->
+Lemma root_query : forall fuel env s n o fr ms s1,
+  BInv env s ->
   query_for p None fuel [] CUser None n (set_log s []) = Ok (o, fr, ms, s1) ->
-  MInv p rk (set_log s []) [] inp s1 /\
+  MInv p rk (set_log s []) [] env s1 /\
   exists i, get_info s1 n = Some i /\ i_verified i = s_ts s1 /\ o = QValue (Some (i_value i)).
 Proof.
-  intros fuel inp s n o fr ms s1 HB Hk Eq.
-  pose proof (BInv_start inp s HB) as HI0.
-  destruct (proj1 (msound_all p rk (set_log s []) Hrk Hproj Htgt Hkeys fuel) inp [] [] [] CUser None n _ o fr ms s1
-              HI0 (StkOk_nil rk n) (fun _ => eq_refl) Hk I eq_refl eq_refl (or_introl eq_refl) Eq)
+  intros fuel env s n o fr ms s1 HI0 Eq.
+  destruct (proj1 (msound_all p rk (set_log s []) Hrk Hproj Hkeys fuel) env [] [] [] CUser None n _ o fr ms s1
+              HI0 (StkOk_nil rk n) (fun _ => eq_refl) I eq_refl eq_refl (or_introl eq_refl) Eq)
     as (HI1 & _ & _ & i & Hi & Hv & Ho).
   split; [exact HI1|]. exists i. auto.
 Qed.
 
+Lemma BInv_of : forall sA env s, MInv p rk sA [] env s -> BInv env s.
+Proof. intros sA env s HI. eapply MInv_rebase; [| | | | | | | |exact HI]; try reflexivity. left. reflexivity. Qed.
+
 (** one operation keeps the invariant (a session must not have run out of fuel) *)
-Lemma mstep_inv : forall fuel pfuel s o s' r inp,
-  BInv inp s -> op_in_scope o -> step_f fuel pfuel p s o = (s', r) ->
+Lemma mstep_inv : forall fuel pfuel s o s' r env,
+  BInv env s -> step_f fuel pfuel p s o = (s', r) ->
   (forall sets b, o = OSession sets b -> r_out r <> RFuel) ->
-  BInv (apply_op inp o) s'.
+  BInv (env_step env s o s') s'.
 Proof.
-  intros fuel pfuel s o s' r inp HB Hsc H Hfuel. pose proof (BInv_start inp s HB) as HI0. destruct o as [sets b|n|w v|].
-  - cbn [op_in_scope] in Hsc. subst b. rewrite step_f_session in H. cbv zeta in H.
+  intros fuel pfuel s o s' r env HI0 H Hfuel. destruct o as [sets b|n|w v|].
+  - rewrite step_f_session_gen in H. cbv zeta in H.
     destruct (fold_left fsess_step sets (set_ts (set_log s []) (s_ts (set_log s []) + 1)%N, [], []))
       as [[s1 rs] batch] eqn:Ef.
-    destruct (propagate pfuel (set_visited (set_stat s1 0%N) []) batch) as [s4| | |] eqn:Ep;
+    pose proof (sess_fold_MSess p rk Hrk Hproj _ _ _ _ _ _ _ _ _ (MSess_init p rk Hrk Hproj _ _ _ HI0) Ef) as HS1.
+    destruct (if b then fold_left refresh_step (s_ext s1) (s1, batch) else (s1, batch)) as [s2 batch2] eqn:Er.
+    assert (HS2 : MSess (set_log s []) s2 (env_step env s (OSession sets b) s') batch2).
+    { cbn [env_step]. destruct b.
+      - pose proof (refresh_fold_MSess p rk Hrk Hproj _ (s_ext s1) _ _ _ s2 batch2 HS1) as Q. cbn [fst snd] in Q.
+        assert (Ex : s_ext s1 = s_ext s) by (rewrite (ms_ext _ _ _ _ HS1); reflexivity).
+        rewrite <- Ex. apply Q; [|exact Er].
+        intros e He. rewrite Ex in He. eapply (mi_ext _ _ _ _ _ _ _ HI0). exact He.
+      - inversion Er. subst. exact HS1. }
+    destruct (propagate pfuel (set_visited (set_stat s2 0%N) []) batch2) as [s4| | |] eqn:Ep;
       inversion H; subst; try (exfalso; eapply Hfuel; eauto; reflexivity).
-    cbn [apply_op]. exists s'. eapply (MInv_commit p rk Hrk Hproj _ inp (set_log s [])); eauto.
-  - unfold step_f in H. cbn [apply_op]. cbn [op_in_scope] in Hsc.
+    eapply (MInv_of_MSess p rk Hrk Hproj _ env); eauto.
+  - unfold step_f in H. cbn [env_step].
     destruct (query_for p None fuel [] CUser None n (set_log s [])) as [[[[o fr] ms] s1]| | |] eqn:Eq.
-    + destruct (root_query _ _ _ _ _ _ _ _ HB Hsc Eq) as [HI1 _].
-      destruct o as [[z|]|]; inversion H; subst; eexists; exact HI1.
-    + inversion H. subst. eexists. exact HI0.
-    + inversion H. subst. eexists. exact HI0.
-    + inversion H. subst. eexists. exact HI0.
-  - destruct Hsc.
-  - cbn in H. inversion H. subst. cbn [apply_op]. destruct HB as [sA HI]. exists (restart (set_log s [])).
-    eapply MInv_rebase; [| | | | | |exact HI]; try reflexivity. right. reflexivity.
-Qed.
-
-(** a value answered by a query is the from-scratch value *)
-Lemma mstep_query_sound : forall fuel pfuel s n s' r inp z,
-  BInv inp s -> nkind n <> KExternal ->
-  step_f fuel pfuel p s (OQuery n) = (s', r) -> r_out r = RValue z -> MSpecI p inp n z.
-Proof.
-  intros fuel pfuel s n s' r inp z HI Hk H Hr. unfold step_f in H.
-  destruct (query_for p None fuel [] CUser None n (set_log s [])) as [[[[o fr] ms] s1]| | |] eqn:Eq.
-  - destruct (root_query _ _ _ _ _ _ _ _ HI Hk Eq) as (HI1 & i & Hi & Hv & ->).
-    inversion H. subst. cbn [r_out] in Hr. inversion Hr. subst.
-    eapply mi_V; eauto.
-  - inversion H. subst. discriminate.
-  - inversion H. subst. discriminate.
-  - inversion H. subst. discriminate.
-Qed.
-
-Lemma mrun_sound : forall fuel pfuel ops s inp i n r z,
-  BInv inp s -> Forall op_in_scope ops ->
-  (forall k sets b rk0, (k < i)%nat -> nth_error ops k = Some (OSession sets b) ->
-     nth_error (run_history_f fuel pfuel p s ops) k = Some rk0 -> r_out rk0 <> RFuel) ->
-  nth_error ops i = Some (OQuery n) ->
-  nth_error (run_history_f fuel pfuel p s ops) i = Some r ->
-  r_out r = RValue z ->
-  MSpecI p (fold_left apply_op (firstn i ops) inp) n z.
-Proof.
-  intros fuel pfuel. induction ops as [|o rest IH]; intros s inp i n r z HI Hsc Hfuel Hop Hres Hz.
-  - destruct i; discriminate.
-  - cbn [run_history_f] in Hres, Hfuel. destruct (step_f fuel pfuel p s o) as [s' x] eqn:Es.
-    inversion Hsc as [|o0 rest0 Hsc1 Hsc2]. subst.
-    destruct i as [|i].
-    + cbn in Hop, Hres. inversion Hop. inversion Hres. subst. cbn [firstn fold_left].
-      eapply mstep_query_sound; eauto.
-    + cbn [nth_error firstn fold_left] in *. eapply IH; eauto.
-      * eapply mstep_inv; eauto. intros sets b ->. apply (Hfuel 0%nat sets b x); [lia|reflexivity|reflexivity].
-      * intros k sets b rk0 Hk Hk1 Hk2. apply (Hfuel (S k) sets b rk0); [lia|exact Hk1|exact Hk2].
+    + destruct (root_query _ _ _ _ _ _ _ _ HI0 Eq) as [HI1 _].
+      destruct o as [[z|]|]; inversion H; subst; eapply BInv_of; exact HI1.
+    + inversion H. subst. eapply BInv_of; exact HI0.
+    + inversion H. subst. eapply BInv_of; exact HI0.
+    + inversion H. subst. eapply BInv_of; exact HI0.
+  - cbn in H. inversion H. subst s' r. clear H. cbn [env_step]. unfold BInv.
+    set (s1 := set_log s []) in *.
+    set (t := set_log (set_world s1 ((w, v) :: filter (fun '(k, _) => negb (k =? w)%N) (s_world s1))) []).
+    set (env' := (fst env, fun k => match get_info s (ext_node k) with
+                                    | Some _ => snd env k
+                                    | None => Some (world_get (set_world s1 ((w, v) :: filter (fun '(k, _) => negb (k =? w)%N) (s_world s1))) k) end)).
+    apply (MInv_same3 p rk s1 t noE [] env env' s1 t); try reflexivity; [left; reflexivity| | | | | | |exact HI0].
+    + intros n i Hi Hl. unfold leaf_val, env'. cbn [fst snd]. destruct (nkind n) eqn:Kn; try reflexivity.
+      change (get_info s (ext_node (nidx n))) with (get_info s1 (ext_node (nidx n))).
+      rewrite <- (node_ext_eta n Kn), Hi. reflexivity.
+    + intros n i Hi Hv. eapply (respec p rk Hrk _ _ _ env env' s1 HI0 eq_refl) with (k0 := S (rk n)); [|lia|exact Hi|left; exists i; auto].
+      intros k j Hj. unfold env'. cbn [snd]. change (get_info s (ext_node k)) with (get_info s1 (ext_node k)). rewrite Hj.
+      destruct (mi_kind _ _ _ _ _ _ _ HI0 (ext_node k) j Hj) as [(_ & _ & _ & _ & K5)|(K & _)]; [exact K5|discriminate].
+    + intros k Hk. unfold env'. cbn [snd]. change (get_info s (ext_node k)) with (get_info s1 (ext_node k)). rewrite Hk. reflexivity.
+    + intros m [].
+    + intro m. right. reflexivity.
+    + intros m i Hi. right. exists i. split; [exact Hi|]. intros. reflexivity.
+  - cbn in H. inversion H. subst. cbn [env_step]. unfold BInv.
+    eapply MInv_rebase; [| | | | | | | |exact HI0]; try reflexivity. right. reflexivity.
 Qed.
 End Steps.
-
-(** * C01 on the full model (unordered groups included), for every fuel *)
-Theorem model_sound_g_f : model_sound_g_statement_f.
-Proof.
-  intros fuel pfuel p ops i n r z Hwf Hsc Hfuel Hop Hres Hz.
-  destruct (wf_model_g_facts p Hwf) as (rk & Hrk & Hproj & Htgt & Hkeys). apply MdlSpec_MSpecI.
-  unfold inputs_after. eapply (mrun_sound p rk Hrk Hproj Htgt Hkeys); eauto. exists init_state. apply MInv_init.
-Qed.
-
-(** * C01 about the model's own [step] / [run_history] *)
-Theorem model_sound_g : model_sound_g_statement.
-Proof.
-  intros p ops i n r z Hwf Hsc Hfuel Hop Hres Hz.
-  rewrite run_history_is_f in Hres.
-  eapply (model_sound_g_f fuel0 4000%nat); eauto.
-  intros k sets b rk0 Hk Hk1 Hk2. rewrite <- run_history_is_f in Hk2. eapply Hfuel; eauto.
-Qed.
-
-Theorem model_sound_f : model_sound_statement_f.
-Proof. intros fuel pfuel p ops i n r z Hwf. apply model_sound_g_f. apply wf_model_g_of. exact Hwf. Qed.
-Theorem model_sound : model_sound_statement.
-Proof. intros p ops i n r z Hwf. apply model_sound_g. apply wf_model_g_of. exact Hwf. Qed.
 
 (** the hypothesis on fuel is needed, as for the fragments: a session whose dirty propagation
     ran out of the model's fixed fuel keeps the inputs without the dirt *)
